@@ -54,6 +54,7 @@ type caseT struct {
 	AddStop  string `json:"add_conn_during_stop,omitempty"`     // core: "" | race | in-onopen (AddConn whose open callback is still running when Stop starts)
 	Transfer bool   `json:"ws_transfer_to_poller,omitempty"`    // http: Upgrader.BlockingModTrasferConnToPoller
 	WSSync   bool   `json:"ws_sync_write,omitempty"`            // http: Upgrader.BlockingModAsyncWrite = false
+	DialStop bool   `json:"dials_during_stop,omitempty"`         // core tcp: DialAsync calls issued around the start of Stop (refused, or dialed and closed by Stop)
 	HTTPExec string `json:"http_custom_executors,omitempty"`    // http: "" | server | client | both (application-supplied executors: the engine creates, and must stop, only the pools it owns)
 	CloseAdd string `json:"close_vs_add_conn,omitempty"`        // core: "" | closed-first | close-race (Close of an nbio.Conn before / while it is handed to AddConn)
 }
@@ -86,6 +87,7 @@ func genCase(r *h.Run, idx int) caseT {
 		if c.Net != "udp" {
 			c.AddStop = []string{"", "race", "in-onopen", "burst"}[rng.Intn(4)]
 			c.CloseAdd = []string{"", "", "closed-first", "close-race"}[rng.Intn(4)]
+			c.DialStop = c.Net == "tcp" && rng.Intn(3) == 0
 		}
 	} else {
 		c.Transfer = rng.Intn(2) == 0
@@ -196,6 +198,8 @@ func runCase(r *h.Run, c caseT) {
 	}
 	defer releaseExtra()
 	var opens, closes int64
+	stopAccept := func() {}
+	defer func() { stopAccept() }()
 	var stopFn func()
 	var addr string
 	var stormStop int32
@@ -379,6 +383,45 @@ func runCase(r *h.Run, c caseT) {
 			var addErr error
 			addDone := make(chan struct{})
 			var burst sync.WaitGroup
+			if c.DialStop {
+				// DialAsync while Stop begins: a dial the engine refuses must leave nothing behind in its
+				// accounting, one it takes is closed by Stop; every callback that was promised arrives
+				if dl, err := net.Listen("tcp", "127.0.0.1:0"); err == nil {
+					accDone := make(chan struct{})
+					stopAccept = func() {
+						// no connection may be accepted (and added to the peers) after the peers were closed
+						_ = dl.Close()
+						<-accDone
+					}
+					go func() {
+						defer close(accDone)
+						for {
+							pc, err := dl.Accept()
+							if err != nil {
+								return
+							}
+							addPeer(pc)
+						}
+					}()
+					for k := 0; k < 5; k++ {
+						d := rng.Intn(600)
+						burst.Add(1)
+						go func() {
+							defer burst.Done()
+							time.Sleep(time.Duration(d) * time.Microsecond)
+							if err := g.DialAsync("tcp", dl.Addr().String(), func(cn *nbio.Conn, err error) {
+								atomic.AddInt64(&progress, 1)
+							}); err == nil {
+								// a dial the engine took counts as an open of its own (like the pending
+								// dials above): one close notification is owed for it
+								atomic.AddInt64(&pendingDial, 1)
+							}
+							atomic.AddInt64(&progress, 1)
+						}()
+					}
+					time.Sleep(time.Duration(rng.Intn(300)) * time.Microsecond)
+				}
+			}
 			if c.AddStop == "burst" {
 				// several goroutines hand connections to the engine while Stop begins: each is refused or
 				// taken and closed, and counting them must never disturb Stop's own wait
@@ -467,7 +510,7 @@ func runCase(r *h.Run, c caseT) {
 			}
 			r.Seen("add_during_stop", fmt.Sprintf("%s/refused=%v", c.AddStop, addErr != nil))
 			burst.Wait()
-			if c.AddStop == "race" || c.AddStop == "burst" {
+			if c.AddStop == "race" || c.AddStop == "burst" || c.DialStop {
 				// the racing AddConn may have started after Stop had returned: it is refused and closed
 				// by AddConn itself, the counts are compared once it is back
 				// (the notification itself is delivered by the engine's asynchronous queue: wait for
@@ -651,6 +694,7 @@ func runCase(r *h.Run, c caseT) {
 		r.Violate(sig("connections-left-open-after-stop"), fmt.Sprintf("%d of %d client connections were neither closed nor reset within 3 s after Stop returned:%s\nconfig %+v", notClosed, checked, leftInfo, c), c)
 		return
 	}
+	stopAccept()
 	closePeers()
 	releaseExtra()
 
